@@ -264,7 +264,10 @@ def run_array(doc, log):
                     log.count("values-passthrough")
                 elif a.get("out_reuse"):
                     # dirty, correctly shaped buffers from a previous integrate() call
-                    out = form.integrate(parallel=False)
+                    # buffers of an earlier evaluation - of a form in which every block was present
+                    fprev = [f if f is not None else rng.normal(size=block_shape(fields[i], grad_v[i], fields[j] if bil else None, grad_u[j] if bil else None) + trail) for f, (i, j) in zip(funs, pairs)]
+                    prev = fem.IntegralForm(fprev, field, region.dV, u=field if bil else None, **kw)
+                    out = prev.integrate(parallel=False)
                     for o in out:
                         if o is not None:
                             o += 17.0
